@@ -88,6 +88,22 @@ static inline size_t cm_next(const uint8_t *d, size_t n, size_t o)
 /* capture-module builder: size of the intermediate buffer (header, five length fields, the strings, vendor data, up to 8 padding bytes) */
 #define CMB_MAXSIZE (26 + 10 + deviceDescription.n + serialNumber.n + hardwareVersion.n + softwareVersion.n + vendorData->n + 8)
 
+/* ---- status tracker (C16): keys, element identity (shallow: a moved element is the same element), invariant instances */
+#define PKT_SAME(a, b) ((a).payload == (b).payload && (a).version == (b).version && (a).deviceId == (b).deviceId && (a).streamId == (b).streamId && (a).sequenceCounter == (b).sequenceCounter && \
+                        (a).timestamp == (b).timestamp && (a).interfaceId == (b).interfaceId && (a).vendorId == (b).vendorId && (a).commonFlags == (b).commonFlags && (a).segmentType == (b).segmentType)
+#define VEC_ELEM_EQ_vec_ASAM_CMP_InterfaceStatus(a, b) ((a).interfaceId == (b).interfaceId && PKT_SAME((a).interfacePacket, (b).interfacePacket))
+#define VEC_ELEM_EQ_vec_ASAM_CMP_DeviceStatus(a, b)    ((a).interfaces.d == (b).interfaces.d && (a).interfaces.n == (b).interfaces.n && PKT_SAME((a).devicePacket, (b).devicePacket))
+#define VEC_ELEM_EQ_vec_p_ASAM_CMP_Packet(a, b)        ((a) == (b))
+#define VEC_ELEM_EQ_vec_p_TECMP_Payload(a, b)          ((a) == (b))
+#define DKEY(v, i)   ((v).d[i].devicePacket.deviceId)          /* key of a device entry: device id of the stored capture-module packet */
+#define IKEY(v, i)   ((v).d[i].interfaceId)                    /* key of an interface entry */
+#ifndef ST_MAX
+#define ST_MAX 100000ul          /* element-count bound of the status vectors (device ids are 16 bit: at most 65536 distinct entries) */
+#endif
+#define INV_D(v, a, b) (((a) < (v).n && (b) < (v).n && (a) != (b)) ==> DKEY(v, a) != DKEY(v, b))       /* instance (a,b) of: stored device ids pairwise distinct */
+#define INV_I(v, a, b) (((a) < (v).n && (b) < (v).n && (a) != (b)) ==> IKEY(v, a) != IKEY(v, b))
+#define VEC_SHAPE(v)   ((v).n <= ST_MAX && ((v).n == 0 || __CPROVER_is_fresh((v).d, (v).n * sizeof(*(v).d))))       /* an empty vector may have no buffer at all */
+
 /* a pointer/length view lies inside the payload buffer [d, d+n) */
 #define VIEW_IN(p, len, d, n) ((len) == 0 || (__CPROVER_same_object((p), (d)) && __CPROVER_POINTER_OFFSET(p) >= 0 && (size_t)__CPROVER_POINTER_OFFSET(p) + (len) <= (n)))
 
